@@ -120,9 +120,10 @@ def run(ctx, rep):
                      f'{bad} has no upper-bound guard that precedes the site: the verifier loops/allocates in proportion to the field\'s value')),
                    db.fns[s.fn].loc(s.line), cfg, sample=(lname == 'recursive'))
         rep.note(f'classes[{lname}]', classes)
-    # measured: 44 loops + pipelines per layout (allocation sites are not counted for the floor: removing an
-    # allocation is a legitimate refactor)
-    rep.floor('C17', 'loops and iterator pipelines over the 7 layouts', total, 280)
+    # measured: about 43 loops + pipelines per layout (299 in all). The floor only guards against an analysis that
+    # silently saw a fraction of the program; it is set well below the count so that replacing index loops by iterator
+    # pipelines (fewer, fused sites) is not reported (allocation sites are not counted: removing one is a legitimate refactor)
+    rep.floor('C17', 'loops and iterator pipelines over the 7 layouts', total, 200)
     # ---------- recursion ----------
     R = db.reach([VERIFY])
     idx = {p: i for i, p in enumerate(R)}
